@@ -90,6 +90,9 @@ func main() {
 			results = append(results, e.VerifyFunc(fn, c))
 		}
 	}
+	if *prop != "" {
+		results = append(results, e.verifyProtocols(*prop)...)
+	}
 	dir := *dump
 	if dir == "" {
 		dir, _ = os.MkdirTemp("", "govc")
@@ -122,6 +125,12 @@ func main() {
 		}
 	}
 	counts := map[string]int{}
+	for _, ob := range e.engineObls {
+		if ob.Verdict != "discharged" {
+			fmt.Printf("%-10s %s (engine)\n   %s\n", ob.Verdict, ob.Name, ob.Output)
+			bad++
+		}
+	}
 	for i, ob := range all {
 		counts[ob.Verdict]++
 		if ob.Verdict != "discharged" && ob.Verdict != "covered" {
